@@ -10,7 +10,9 @@ RULES = {"C11.a", "C11.b", "C11.c", "C11.d", "C11.e"}
 def check(ctx):
     # peek_n runs on a clone of the real cursor and next() on the cursor itself: they agree only while the cursor's fields
     # describe one position (C09.a: repositioning resets all of them; C10.b: reset totality)
-    cursor.analyze(ctx, RULES | {"C09.a", "C10.b"})
+    # ... and only if both hand the automaton the same view of the input: the rest of the input from the own offset, with
+    # a clone of the own cursor (C04.c: the contract of next_match and of peek_n, each checked against the same reference)
+    cursor.analyze(ctx, RULES | {"C09.a", "C10.b", "C04.c"})
     # the mode switch a peek reports is decided by the same transition lookup next() uses
     from . import pC06
     pC06.transition_lookup_rules(ctx)
